@@ -627,6 +627,160 @@ def cancel_case(driver, seed, k, after, res):
         sim.close()
 
 
+def eagain_case(driver, seed, i, after, res):
+    """A write error of the transient kind: the device's output queue is full for a moment, os.write raises
+    BlockingIOError (an OSError).  It is a write error like any other - the command in flight fails with CommunicationError
+    or is retried after the reconnection - and it leaves nothing behind: several hundred sends later (sequence numbers
+    wrapped) everything still works."""
+    from dali.exceptions import CommunicationError
+    r = rng(seed, "C17", "eagain", driver, i)
+    picker = simlib.Picker(r)
+    exceptions = r.random() < 0.5
+    sim = simlib.Sim(driver, picker, hid_kwargs={"reconnect_interval": 0.2})
+    at_cmd = r.randrange(0, 6)
+    window = r.choice([0.0005, 0.01, 0.05, 0.3])
+    results = []
+
+    async def main(sim):
+        d = sim.driver
+        d.exceptions_on_send = exceptions
+        await sim.connect()
+        for n in range(8 + after):
+            cmd = simlib.make_command(r, ["query", "plain", "query", "twice"][n % 4], n % 3, n // 3, driver)
+            if n == at_cmd:
+                sim.dev.blocked_until = sim.world.now + window
+            t0 = sim.world.now
+            try:
+                results.append(("ok", await asyncio.wait_for(d.send(cmd), 20.0), cmd, t0, n))
+            except Exception as e:
+                results.append(("exc", e, cmd, t0, n))
+                if isinstance(e, (AssertionError, asyncio.TimeoutError)):
+                    break
+                if not d.connected.is_set():
+                    await asyncio.wait_for(d.connected.wait(), 10.0)
+        await asyncio.sleep(1.0)
+        return True
+
+    out, stalled = sim.run(main)
+    res.evaluations += 1
+    res.distinct += 1
+    res.hit("write_would_block_runs")
+    wit = {"driver": driver, "seed": seed, "case": i, "blocked_at_command": at_cmd, "window": window, "exceptions_on_send": exceptions}
+    try:
+        if simlib.detached(out):
+            res.inconclusive.append('harness detached: ' + str(out))
+            return
+        if stalled or out is not True:
+            res.violation(f"C17/{driver}/write-would-block/stall-or-crash", f"simulation ended with {'a stall' if stalled else repr(out)}", wit)
+            return
+        for st, val, cmd, t0, n in results:
+            res.hit("sends_after_write_error")
+            if st == "exc":
+                if isinstance(val, CommunicationError) and exceptions and n <= at_cmd + 1:
+                    continue                     # the command that met the full queue (or the one right behind it) failed loudly
+                res.violation(f"C17/{driver}/write-would-block/send-raised/{type(val).__name__}",
+                              f"send number {n + 1} ({n - at_cmd} after the one that met a full output queue) raised {type(val).__name__}: {val}",
+                              {**wit, "n": n + 1, "tb": short_tb(val)})
+                break
+            p = check_answer(driver, cmd, val, sim.bus.wire, t_from=t0)
+            if p:
+                res.violation(f"C17/{driver}/write-would-block/wrong-result", f"send number {n + 1} ({cmd}) {p}", {**wit, "n": n + 1})
+                break
+        probs = state_problems(sim, driver)
+        if probs:
+            res.violation(f"C17/{driver}/write-would-block/state-left-behind", "; ".join(probs), wit)
+        if sim.loop.errors:
+            res.violation(f"C17/{driver}/internal-error", f"exception in a callback/task: {sim.loop.errors[0]}", wit)
+    finally:
+        sim.close()
+
+
+def handshake_write_error_case(driver, seed, i, res):
+    """The device node can be opened but the first writes to it fail (the adapter is enumerated, its endpoint not ready yet):
+    at the application's connect(), or at a reconnection after a loss.  connect() does not raise, the driver keeps trying at
+    its interval and is connected once the writes work; then commands get their answers."""
+    r = rng(seed, "C17", "handshake-write", driver, i)
+    picker = simlib.Picker(r)
+    sim = simlib.Sim(driver, picker, hid_kwargs={"reconnect_interval": 0.2})
+    when = ("at-connect", "after-loss")[i % 2]
+    window = r.choice([0.05, 0.3, 0.5])
+    got = {}
+
+    async def main(sim):
+        d = sim.driver
+        if when == "at-connect":
+            sim.dev.write_fails = True
+            sim.world.at(window, lambda: setattr(sim.dev, "write_fails", False))
+            try:
+                d.connect()
+            except Exception as e:
+                got["connect"] = e
+                return True
+        else:
+            await sim.connect()
+            t1 = sim.world.now + 0.05
+            sim.world.at(t1, lambda: sim.dev.lose("eof"))
+
+            def back():
+                sim.dev.restore()
+                sim.dev.write_fails = True
+            sim.world.at(t1 + 0.3, back)
+            sim.world.at(t1 + 0.3 + window, lambda: setattr(sim.dev, "write_fails", False))
+            await asyncio.sleep(0.4)
+        try:
+            await asyncio.wait_for(d.connected.wait(), window + 5.0)
+            got["connected_at"] = sim.world.now
+        except (asyncio.TimeoutError, TimeoutError):
+            got["connected_at"] = None
+            return True
+        cmd = simlib.make_command(r, "query", 1, 3, driver)
+        t0 = sim.world.now
+        try:
+            got["send"] = ("ok", await asyncio.wait_for(d.send(cmd), 5.0), cmd, t0)
+        except Exception as e:
+            got["send"] = ("exc", e, cmd, t0)
+        await asyncio.sleep(0.3)
+        return True
+
+    out, stalled = sim.run(main)
+    res.evaluations += 1
+    res.distinct += 1
+    res.hit("handshake_write_error_runs")
+    wit = {"driver": driver, "seed": seed, "case": i, "when": when, "writes_fail_for": window}
+    try:
+        if simlib.detached(out):
+            res.inconclusive.append('harness detached: ' + str(out))
+            return
+        if stalled or out is not True:
+            res.violation(f"C17/{driver}/handshake-write-error/stall-or-crash", f"simulation ended with {'a stall' if stalled else repr(out)}", wit)
+            return
+        if "connect" in got:
+            res.violation(f"C17/{driver}/handshake-write-error/connect-raised/{type(got['connect']).__name__}",
+                          f"connect() raised {type(got['connect']).__name__}: {got['connect']} (the node opens, the first write fails)",
+                          {**wit, "tb": short_tb(got["connect"])})
+            return
+        if got.get("connected_at") is None:
+            res.violation(f"C17/{driver}/handshake-write-error/never-connected", f"writes worked again after {window} s but the driver was not "
+                          "connected 5 s later", wit)
+            return
+        sd = got.get("send")
+        if sd is None or sd[0] == "exc":
+            res.violation(f"C17/{driver}/handshake-write-error/send-failed", f"a send after the connection was established: {sd and sd[1]!r}", wit)
+        else:
+            p = check_answer(driver, sd[2], sd[1], sim.bus.wire, t_from=sd[3])
+            if p:
+                res.violation(f"C17/{driver}/handshake-write-error/wrong-result", f"send({sd[2]}) {p}", wit)
+        ev = [s_ for (_t, s_) in sim.status_events]
+        for a_, b_ in zip(ev, ev[1:]):
+            if a_ == b_ == "disconnected":
+                res.violation(f"C17/{driver}/handshake-write-error/disconnected-reported-twice", f"status events {ev}", wit)
+                break
+        if sim.loop.errors:
+            res.violation(f"C17/{driver}/internal-error", f"exception in a callback/task: {sim.loop.errors[0]}", wit)
+    finally:
+        sim.close()
+
+
 # --------------------------------------------------------------------------------------------- C: serial silence
 
 def silence_case(driver, seed, i, res):
@@ -797,6 +951,12 @@ def run_shard(desc, tier, seed):
         elif desc["kind"] == "cancel":
             for k in range(1, desc["steps"] + 1):
                 cancel_case(desc["driver"], seed, k, desc["after"], res)
+            if desc["driver"] in ("tridonic", "hasseb"):
+                for k in range(desc["steps"] // 2):
+                    eagain_case(desc["driver"], seed, k, desc["after"], res)
+                if desc["driver"] == "tridonic":        # the hasseb driver has no handshake: it is 'connected' once the node is open
+                    for k in range(desc["steps"]):
+                        handshake_write_error_case(desc["driver"], seed, k, res)
         else:
             for i in range(desc["n"]):
                 silence_case(desc["driver"], seed, i, res)
